@@ -26,6 +26,7 @@ struct hx {
   unsigned memattr_serial, misc_serial;
   int allow_grouping;     /* distances add with GROUP flags */
   int allow_bad_args;     /* invalid flag words / empty sets / NULL entries */
+  int no_fragile_groups;  /* do not insert Group shapes covered by the open Group-insertion findings (they are freed instead) */
 };
 
 void hx_init(struct hx *h, hwloc_topology_t t, struct hv_rng *r);
